@@ -368,11 +368,14 @@ def decide(pid, tier, seed, t0):
     # unbounded-in-calls safety of the reservation scheme (Apalache, inductive invariant): run in the thorough tier,
     # reported from the cache in the quick tier
     apal = None
-    if pid in ("C01", "C04"):
-        apal = engine.apalache_inductive(run_if_missing=(tier == "thorough"))
-        if apal and not apal["all_discharged"]:
-            path = write_replay(pid, "apalache", apal)
-            violations.append(("Apalache CounterInd", "inductive invariant not discharged", path))
+    apal_mods = (["CounterInd"] if pid in ("C01", "C04") else []) + (["TicketInd"] if pid in ("C01", "C02", "C07") else [])
+    for mod in apal_mods:
+        a = engine.apalache_inductive(run_if_missing=(tier == "thorough" or mod == "TicketInd"), module=mod)
+        if a and not a["all_discharged"]:
+            path = write_replay(pid, "apalache", a)
+            violations.append(("Apalache " + mod, "inductive invariant not discharged", path))
+        if a:
+            apal = (apal or []) + [a]
     # ---- E2 -------------------------------------------------------------------------------------
     bundles = []
     relevant = 0
